@@ -488,7 +488,12 @@ func enumerate(shard, nshards int, yield func(Case)) {
 				emit(c)
 			}
 			if isPrim && (strings.HasPrefix(sh.name, "integer") || sh.name == "number" || sh.name == "boolean") {
-				for _, g := range []string{"abc", "1.5x", "--1", "tru"} {
+				gs := []string{"abc", "1.5x", "--1", "tru"}
+				if sh.name == "integer-int32" {
+					// out of the 32-bit range: not an int32, and not a value satisfying the schema either
+					gs = append(gs, "2147483648", "-2147483649", "4294967303", "9223372036854775807")
+				}
+				for _, g := range gs {
 					c := base
 					c.Presence, c.Garbage = "garbage", g
 					emit(c)
@@ -575,8 +580,18 @@ func gen(t *rapid.T) Case {
 	default:
 		c.Value = rapid.SampledFrom(sh.values).Draw(t, "tablevalue")
 	}
-	if rapid.IntRange(0, 7).Draw(t, "absent") == 0 {
+	switch rapid.IntRange(0, 9).Draw(t, "absent") {
+	case 0:
 		c.Presence = "absent"
+	case 1:
+		isNum := strings.HasPrefix(sh.name, "integer") || sh.name == "number" || sh.name == "boolean"
+		if isNum {
+			gs := []string{"abc", "1.5x", "--1", "tru", "1e", "0x"}
+			if sh.name == "integer-int32" {
+				gs = append(gs, "2147483648", "-2147483649", "4294967303", "8589934592", "9223372036854775807")
+			}
+			c.Presence, c.Garbage = "garbage", rapid.SampledFrom(gs).Draw(t, "garbage")
+		}
 	}
 	return c
 }
